@@ -7,7 +7,7 @@ from be_check import run_be, replay_be
 
 PID = 'C03'
 MANIFEST = dict(
-    text='Machine-checked (Coq) conservation invariant of the backend micro-step model for every interleaving of log calls, thread exits and backend steps, every capacity, transit-buffer size and soft/hard limit: per thread, committed = processed ++ buffered ++ queued (nothing lost, duplicated or reordered by queue reads, buffer growth, limit exits or context removal), and the sink loop writes a statement exactly once to each sink of its logger that passes its own filter (C03_conservation, C03_sink_loop, C03_sink_gets_line_iff). The model is run against the real backend (ManualBackendWorker::poll_one with yield hooks, real frontend threads, virtual clock) on generated schedules and the property itself is evaluated on the implementation\'s sink calls. Not yet proved here: the bounded-liveness clause (drain within K polls) and unbounded queues. UnboundedBlocking frontends (the default queue type; initial node 256/1024 bytes so that queues grow) run through the same driver and are judged by the property monitor on the implementation only: M-BE models one bounded queue per thread, the node switching of the unbounded queue is proved and tied in C02.',
+    text='Machine-checked (Coq) conservation invariant of the backend micro-step model for every interleaving of log calls, thread exits and backend steps, every capacity, transit-buffer size and soft/hard limit: per thread, committed = processed ++ buffered ++ queued (nothing lost, duplicated or reordered by queue reads, buffer growth, limit exits or context removal), and the sink loop writes a statement exactly once to each sink of its logger that passes its own filter (C03_conservation, C03_sink_loop, C03_sink_gets_line_iff). The model is run against the real backend (ManualBackendWorker::poll_one with yield hooks, real frontend threads, virtual clock) on generated schedules and the property itself is evaluated on the implementation\'s sink calls. Not yet proved here: the bounded-liveness clause (drain within K polls) and unbounded queues. Queue kinds: bounded blocking, bounded dropping and UnboundedBlocking frontends (the default type; initial node 256/1024 bytes so that queues grow). For unbounded frontends the thread record of M-BE carries the node structure of the queue (the sequential layer of M-UQ, updated at every queue call; it decides the backend\'s per-call read limit = capacity of the consumer\'s current node) next to a byte queue too large to fill; the theorems quantify over every initial node structure (premise fresh_thr) and every capacity, and the extracted model is compared with the real backend on growing queues as well.',
     design='5 C03', technique='Coq invariant proof over a backend micro-step machine + deterministic-driver differential correspondence')
 
 
